@@ -121,6 +121,18 @@ def run(ck: Checker):
                 if not any(s_.id in reachable(cfg, [d.id], avoid={loop}) for s_ in sends):
                     probs.append('after a failed dispatch nothing is sent back: the caller waits for ever')
     ck.ob('C14-2', f, cm[0].ast, not probs, '; '.join(probs) if probs else 'a failing dispatch is answered with a #TRACEBACK message and the serve loop goes on; only EOF / a failed send end it')
+    # ------------------------------------------------------------------ C14-9
+    ck.rule('C14-9', 'the type registry of a running server only grows: `managed()` and the Server methods never delete an entry (server threads look entries up without a lock between `managed()` and `Server.create`; an entry deleted "after its single use" disappears under a concurrent managed() of the same type) (WHO)')
+    dels = []
+    for g in mod.functions.values():
+        for n in walk_deep_func(g.node) if g.parent is None or g.cls is not None else []:
+            if isinstance(n, ast.Delete) and any(isinstance(t, ast.Subscript) and (dotted(t.value) or '').endswith('.registry') for t in n.targets):
+                dels.append((g, n))
+            if isinstance(n, ast.Call) and method_of(n)[1] in ('pop', 'popitem', 'clear') and method_of(n)[0] is not None and (dotted(method_of(n)[0]) or '').endswith('.registry'):
+                dels.append((g, n))
+    dels = [(g, n) for g, n in dels if g.name != 'unregister']
+    mg = mod.func('managed')
+    ck.ob('C14-9', mg, (mg.node.lineno, 'registry deletions'), not dels, 'no function removes entries from the registry of a running server' if not dels else f'{dels[0][0].qualname} L{dels[0][1].lineno}: `{norm_text(dels[0][1])[:60]}` removes a registry entry while other server threads may be between their lookup and `Server.create`: their managed() fails with a spurious KeyError and the client gets no proxy')
     # ------------------------------------------------------------------ C14-8
     # "an exception raised by the method is raised in the caller with the same type and arguments and carries the
     # server-side traceback": the carrier is RemoteException; its obligations (C15) are decided here as well
@@ -130,20 +142,7 @@ def run(ck: Checker):
         c15.run(ck)
     # ------------------------------------------------------------------ C14-7
     ck.rule('C14-7', "the in-process shortcut is taken only for proxies of this very server: every function that receives a token obtains the server with get_server(<token>.address), and get_server returns the running server only when the addresses agree (AGREE)", minimum=2)
-    gs = mod.func('get_server')
-    gp = gs.params()
-    probs = []
-    cmp_ = [n for n in ast.walk(gs.node) if isinstance(n, ast.Compare) and len(n.ops) == 1 and isinstance(n.ops[0], ast.Eq) and {norm_text(n.left), norm_text(n.comparators[0])} == {'server.address', gp[0] if gp else ''}]
-    if not gp or not cmp_:
-        probs.append('get_server does not compare the running server\'s address with the requested one')
-    ck.ob('C14-7', gs, (gs.node.lineno, 'get_server'), not probs, '; '.join(probs) if probs else 'returns the running server for a matching address (or when no address is given: "any server in this process")')
-    for g in mod.functions.values():
-        ps = g.params()
-        if 'token' not in ps:
-            continue
-        for c in [n for n in walk_shallow_func(g.node) if isinstance(n, ast.Call) and dotted(n.func) == 'get_server']:
-            ok = bool(c.args) and norm_text(c.args[0]) == 'token.address' or any(k.arg == (gp[0] if gp else 'address') and norm_text(k.value) == 'token.address' for k in c.keywords)
-            ck.ob('C14-7', g, c, ok, 'the server is looked up by the address of the token at hand' if ok else f'`{norm_text(c)}` ignores the token\'s address: inside a server process a proxy that belongs to ANOTHER manager takes the in-process shortcut against this server\'s tables (KeyError / the wrong object) — passing such a proxy to a hosted method or storing it in a hosted container fails')
+    check_shortcut_address(ck, 'C14-7')
     # ------------------------------------------------------------------ C14-6
     ck.rule('C14-6', 'a value wrapped by managed() a second time stays reachable through its earlier proxies: Server.create initialises the count entry only if absent, before the proxy is built (same obligation as C13-4, decided here for "state is visible through every proxy")', minimum=1)
     from .c13 import check_create_bookkeeping
@@ -275,3 +274,22 @@ def run(ck: Checker):
                 elif isinstance(v, ast.Call) and [norm_text(a) for a in v.args] != [f'{res}.exc', f'{res}.tb']:
                     probs.append(f'the rebuild helper is called with {[norm_text(a) for a in v.args]}, not ({res}.exc, {res}.tb): type/args or the server-side traceback text would be lost')
     ck.ob('C14-4', f, rz[0].ast, not probs, '; '.join(sorted(set(probs))) if probs else 'both branches deliver the same payload kinds: the shortcut rebuilds the original exception (with its traceback text) exactly as unpickling does on the wire branch')
+
+
+def check_shortcut_address(ck: Checker, rid: str):
+    """get_server compares addresses; every function that has a token looks the server up by that token's address."""
+    mod = ck.repo.module(SERVERPROC)
+    gs = mod.func('get_server')
+    gp = gs.params()
+    probs = []
+    cmp_ = [n for n in ast.walk(gs.node) if isinstance(n, ast.Compare) and len(n.ops) == 1 and isinstance(n.ops[0], ast.Eq) and {norm_text(n.left), norm_text(n.comparators[0])} == {'server.address', gp[0] if gp else ''}]
+    if not gp or not cmp_:
+        probs.append('get_server does not compare the running server\'s address with the requested one')
+    ck.ob(rid, gs, (gs.node.lineno, 'get_server'), not probs, '; '.join(probs) if probs else 'returns the running server for a matching address (or when no address is given: "any server in this process")')
+    for g in mod.functions.values():
+        ps = g.params()
+        if 'token' not in ps:
+            continue
+        for c in [n for n in walk_shallow_func(g.node) if isinstance(n, ast.Call) and dotted(n.func) == 'get_server']:
+            ok = bool(c.args) and norm_text(c.args[0]) == 'token.address' or any(k.arg == (gp[0] if gp else 'address') and norm_text(k.value) == 'token.address' for k in c.keywords)
+            ck.ob(rid, g, c, ok, 'the server is looked up by the address of the token at hand' if ok else f'`{norm_text(c)}` ignores the token\'s address: inside a server process a proxy that belongs to ANOTHER manager takes the in-process shortcut against this server\'s tables (KeyError / the wrong object) — passing such a proxy to a hosted method or storing it in a hosted container fails')
